@@ -251,9 +251,37 @@ def d2_unordered(ctx, idx):
                 if isinstance(st, ast.Assign) and any(cm.sub_key(t) == 'grade_decimal' for t in st.targets):
                     v = st.value
                     g = cm.guards_of(st, stop=cost_fi.node)
-                    good = cm.is_call_to(v, 'consolidate_grades') and any(nf.match("'input_list' in %s" % p0, x) is not None for x in g)
-                    r.check(good, 'find_optimal_order: cost of a long-form result', 'consolidate_grades of its entries',
-                            'a nested result\'s grade is set to `%s`%s' % (short(v), '' if g else ' unconditionally'), lib.loc(cost_fi, st))
+                    construct = 'find_optimal_order: cost of a long-form result'
+                    where = lib.loc(cost_fi, st)
+                    guarded = any(nf.match("'input_list' in %s" % p0, x) is not None for x in g)
+                    if not (cm.is_call_to(v, 'consolidate_grades') and guarded):
+                        r.violation(construct, 'a nested result\'s grade is set to `%s`%s' % (short(v), '' if g else ' unconditionally'), where)
+                        continue
+                    a0 = cm.value_of(cost_fi, v.args[0]) if v.args else None
+                    ne = lib.get_kw(v, 'n_expect', 1)
+                    res = nf.classify("[_R['grade_decimal'] for _R in %s['input_list']]" % p0, a0) if a0 is not None else nf.UNRECOGNISED
+                    if isinstance(res, tuple):
+                        r.violation(construct, 'the grades consolidated for a long-form cell are `%s` (%s), not all grades of that cell\'s '
+                                    'input_list' % (short(a0), res[1]), where)
+                    elif res != nf.MATCH and isinstance(a0, ast.Subscript) and isinstance(a0.slice, ast.Slice) and nf.classify(
+                            "[_R['grade_decimal'] for _R in %s['input_list']]" % p0, cm.value_of(cost_fi, a0.value)) == nf.MATCH:
+                        r.violation(construct, 'only a slice (`%s`) of the cell\'s grades is consolidated: the cost of a nested result ignores '
+                                    'part of its boxes' % short(a0), where, expected='all grades of the cell', found=short(a0))
+                    elif res != nf.MATCH:
+                        r.undecided(construct, 'consolidated list `%s`' % short(a0), where)
+                    else:
+                        same_len = ne is not None and cm.is_call_to(ne, 'len', 1) and (
+                            nf.equal(nf.canon(ne.args[0]), nf.canon(v.args[0])) or
+                            nf.match("%s['input_list']" % p0, cm.value_of(cost_fi, ne.args[0])) is not None or
+                            nf.equal(nf.canon(cm.value_of(cost_fi, ne.args[0])), nf.canon(a0)))
+                        if ne is None or (isinstance(ne, ast.Constant) and ne.value is None) or same_len:
+                            r.ok(construct, 'consolidate_grades of all its entries, averaged over their own number', where)
+                        else:
+                            r.violation(construct, 'the cell\'s grades are consolidated with n_expect=`%s`, a quantity that is not the number of '
+                                        'grades of that cell: entries beyond it count as surplus answers (-1 each) and the average is taken over '
+                                        'the wrong count, so the costs handed to the solver are distorted and the assignment found is not the '
+                                        'one with maximal total credit' % short(ne), where,
+                                        expected='consolidate_grades(grades) (n_expect omitted or len(grades))', found=short(v))
         # --- solver call and read-back
         cc = lib.one_call(fi, 'compute')
         carg = cm.deref(fi, cc.args[0]) if cc.args else None
@@ -1190,6 +1218,8 @@ MUTANTS = [
     Mutant('cost-is-grade', LG, "        return 1 - result['grade_decimal']", "        return result['grade_decimal']", 'D2'),
     Mutant('cost-sign-flipped', LG, "        return 1 - result['grade_decimal']", "        return result['grade_decimal'] - 1", 'D2'),
     Mutant('cost-is-credit-plus-one', LG, "        return 1 - result['grade_decimal']", "        return 1 + result['grade_decimal']", 'D2'),
+    Mutant('cost-consolidated-over-outer-count', LG, "            result['grade_decimal'] = consolidate_grades(grades)\n", "            result['grade_decimal'] = consolidate_grades(grades, len(answers))\n", 'D2'),
+    Mutant('cost-consolidates-first-grade-only', LG, "            result['grade_decimal'] = consolidate_grades(grades)\n", "            result['grade_decimal'] = consolidate_grades(grades[:1])\n", 'D2'),
     Mutant('readback-transposed', LG, "[result_matrix[i][j] for i, j in indexes]", "[result_matrix[j][i] for i, j in indexes]", 'D2'),
     Mutant('readback-unpack-swapped', LG, "[result_matrix[i][j] for i, j in indexes]", "[result_matrix[i][j] for j, i in indexes]", 'D2'),
     Mutant('readback-reversed', LG, "[result_matrix[i][j] for i, j in indexes]", "[result_matrix[i][j] for i, j in reversed(indexes)]", 'D2'),
@@ -1268,6 +1298,7 @@ BENIGN = [
            "            if np.count_nonzero(in_the_running) == 1:\n                break\n"),
     Benign('pairs-by-comprehension', MK, "        results = []\n        for i in range(self.original_length):\n            for j in range(self.original_width):\n                if self.marked[i][j] == 1:\n                    results += [(i, j)]\n\n        return results\n",
            "        return [(i, j) for i in range(self.original_length) for j in range(self.original_width) if self.marked[i][j] == 1]\n"),
+    Benign('cost-explicit-own-count', LG, "            result['grade_decimal'] = consolidate_grades(grades)\n", "            result['grade_decimal'] = consolidate_grades(grades, len(grades))\n"),
     Benign('max-as-method', LG, "        max_score = np.max(scores)", "        max_score = scores.max()"),
     Benign('log-before-validation', LG, "        self.validate_submission(answers, student_list)\n\n        # Group the inputs",
            "        self.log('checking a list')\n        self.validate_submission(answers, student_list)\n\n        # Group the inputs"),
